@@ -18,12 +18,13 @@ EXPLANATION = (
     "getters round()/float() under the same test; the weight bound w_max is at least the largest non-ignored flow value; (R4) the greedy "
     "route is accepted only if it fits in k paths and meets every constraint, and it publishes the weights the decomposition returned "
     "(edge and node branches agree); (R5) the walk handed out traverses each edge exactly as often as the solver decided (linear-use rule of "
-    "C14); (R6) no write to caller objects / shared defaults.  NOT decided: solver tolerance, float rounding, that peeled greedy weights add up, Eulerian "
+    "C14); (R6) no write to caller objects / shared defaults; (R7) node-weighted plumbing (C11.R3); (R8) the greedy peeling subtracts on every edge of a peeled path exactly the value it "
+    "publishes as the path's weight and the bottleneck DP reports the value of the path it reconstructs (C17.R5).  NOT decided: solver tolerance, float rounding, termination of the peeling, Eulerian "
     "reconstruction beyond C14's clause."
 )
 DECIDED = ["10d equality present, complete and exact in all flow encoders", "product linking exact for every non-ignored edge and layer",
            "requested numeric type of weights", "greedy route publishes what it computed and only when admissible"]
-NOT_DECIDED = ["equality within solver tolerance (numeric)", "greedy peeling arithmetic", "walk reconstruction (C14)"]
+NOT_DECIDED = ["equality within solver tolerance (numeric)", "that the peeling ends with all flow consumed (needs conservation + arithmetic)", "walk reconstruction (C14)"]
 
 FLOW_MODELS = ["kFlowDecomp", "kFlowDecompCycles"]
 
@@ -88,3 +89,7 @@ def check(prog: Program, rep):
     rep.rule("C02.R7", "node-weighted input: expansion scheme, attribute handling (missing => ignored, present incl. 0 => weighted)", floor=12)
     from rules.common import node_mode_plumbing
     node_mode_plumbing(prog, rep, "C02.R7")
+    rep.rule("C02.R8", "greedy peeling: what is subtracted along a path is what is published as its weight, on every edge (C17.R5)", floor=9)
+    from rules.c17 import peeling_rule
+    from rules.common import RuleProxy
+    peeling_rule(prog, RuleProxy(rep, "C02.R8"), "C17.R5")
